@@ -13,8 +13,10 @@ THEOREMS = ["C18_is_dyn_conservative", "C18_static_is_eval_free", "C18_codegen_w
 
 # expression atoms: (source, contains an evaluation outside closures?)
 ATOMS = ["x", "1", "a::B", "f()", "x.m()", "m!()", "view! { div {} }", "x.await", "x?", "(x = 1)",
-         "|| f()", "|a| a.get()"]
-EVAL_ATOMS = ["f()", "x.m()", "m!()", "x.await", "x?", "(x = 1)"]
+         "|| f()", "|a| a.get()",
+         # method calls that LOOK like plain conversions: the macro sees syntax, not types (a signal's Display / Clone reads it)
+         "x.to_string()", "x.clone()", "a.b.clone()", "x.as_str()", "x.to_owned()", "x.as_ref()", "x.len()", "x.clone::<T>()", "x.get()"]
+EVAL_ATOMS = ["f()", "x.m()", "m!()", "x.await", "x?", "(x = 1)", "x.to_string()", "x.clone()", "a.b.as_ref()", "x.to_owned()", "x.get()"]
 # expression templates: {0} {1} {2} expression holes, {P} pattern hole
 ETEMPL = [
     "[{0}, {1}]", "({0}, {1})", "[{0}; {1}]", "{0}.field", "{0}.0", "({0})", "{0} as T", "{{ {0} }}", "'l: {{ {0} }}",
@@ -26,7 +28,7 @@ ETEMPL = [
     "-{0}", "!{0}", "*{0}", "{0} + {1}", "{0} && {1}", "{0} == {1}", "{0} += {1}", "{0}[{1}]",
     "{0}..{1}", "..{0}", "{0}..", "{0}..={1}", "S {{ a: {0}, ..{1} }}", "S {{ a: {0}, b: {1} }}", "S {{ ..{0} }}",
     "&{0}", "&mut {0}", "return {0}", "unsafe {{ {0} }}", "async {{ {0} }}", "async move {{ {0} }}", "const {{ {0} }}",
-    "{0}({1})", "{0}.m({1})", "{0}.await", "{0}?", "({0} = {1})", "|| {0}", "|{P}| {0}", "move |a| {0}" if False else "|a| {0}",
+    "{0}({1})", "{0}.m({1})", "{0}.to_string()", "{0}.clone()", "{0}.await", "{0}?", "({0} = {1})", "|| {0}", "|{P}| {0}", "move |a| {0}" if False else "|a| {0}",
     "{{ fn g() {{ {0}; }} 1 }}", "{{ m!(); {0} }}", "{{ view! {{ }}; {0} }}", "{{ {0}; {1} }}", "{{ ; {0} }}",
     "{0} as usize + {1}", "x.y.z[{0}].w", "({0},)", "[{0}]", "if {0} {{ }} else if {1} {{ }} else {{ {2} }}",
 ]
